@@ -1559,4 +1559,355 @@ Proof.
   - apply Hcont; try assumption. rewrite <- Fr. lia.
 Qed.
 
+(* ---- incoming messages ---- *)
+Lemma remove_up_to_ack_zero t now ack sk t' r :
+  remove_up_to_ack t now ack sk = (t', r) -> ar_acked_segments r = 0 -> ar_acked_bytes r = 0.
+Proof.
+  unfold remove_up_to_ack.
+  set (dc := if 0 <=? seq_sub ack (ss_snd_una t)
+             then Z.to_nat (Z.min (seq_sub ack (ss_snd_una t) + 1) (len_z (ss_segs t))) else 0%nat).
+  set (a1 := drain_acc (firstn dc (ss_segs t)) now {| ac_rtt := None; ac_maxp := 0; ac_cnt := 0; ac_bytes := 0 |}).
+  destruct (drain_acc_spec (firstn dc (ss_segs t)) now {| ac_rtt := None; ac_maxp := 0; ac_cnt := 0; ac_bytes := 0 |})
+    as [Hc1 Hb1]. fold a1 in Hc1, Hb1. cbn [ac_cnt ac_bytes] in Hc1, Hb1.
+  destruct (sack_phase t _ a1 _ now ack sk) as [[[rest2 a2] depth] lse].
+  destruct (strip_delivered rest2 0 0) as [[rest3 cnt3] bytes3] eqn:E3.
+  destruct (strip_delivered_spec _ _ _ _ _ _ E3) as (dropped & Hd & Hc3 & Hb3 & _).
+  intro H; injection H as <- <-. cbn [ar_acked_segments ar_acked_bytes]. intro Hz.
+  assert (L : length (firstn dc (ss_segs t)) = 0%nat /\ length dropped = 0%nat) by lia.
+  destruct L as [L1 L2]. apply length_zero_iff_nil in L1, L2. rewrite L1 in Hb1. rewrite L2 in Hb3.
+  cbn [sum_sizes] in *. lia.
+Qed.
+
+Lemma calc_pipe_len t hr hd rtt now t' p rc :
+  calc_pipe t hr hd rtt now = Some (t', p, rc) -> ss_len_bytes t' = ss_len_bytes t.
+Proof.
+  unfold calc_pipe. destruct (_ <? _); [discriminate|].
+  destruct (pipe_loop _ t hr _ now _) as [upd a]. intro H; injection H as <- _ _. reflexivity.
+Qed.
+
+Lemma recovery_on_ack_segs r h segs ls cc now rtt r' segs' cc' :
+  recovery_on_ack cci r h segs ls cc now rtt = Some (r', segs', cc') -> seg_inv segs ->
+  seg_inv segs' /\ ss_len_bytes segs' = ss_len_bytes segs.
+Proof.
+  unfold recovery_on_ack. cbv zeta. cbn [rv_phase rv_supports_sack rv_last_ack]. intros H Hinv.
+  destruct (rv_phase r).
+  - destruct (seq_ge _ _); injection H as _ <- _; auto.
+  - destruct (ss_segs segs); [injection H as _ <- _; auto|].
+    match type of H with (match ?c with _ => _ end) = _ => destruct c as [[dup' la']|] end; [|discriminate].
+    destruct (dup' <? SACK_DUP_THRESH); [injection H as _ <- _; auto|].
+    destruct (calc_pipe _ _ _ _ _) as [[[sg pipe] recalc]|] eqn:Ec; [|discriminate].
+    injection H as _ <- _. split; [eapply calc_pipe_inv; eauto|eapply calc_pipe_len; eauto].
+  - destruct (seq_ge _ _); injection H as _ <- _; auto.
+Qed.
+
+Definition res_ok (res : on_ack_result) : Prop :=
+  0 <= ar_acked_bytes res /\ 0 <= ar_acked_segments res /\
+  (ar_acked_segments res = 0 -> ar_acked_bytes res = 0).
+
+Lemma pim_ack_LB p (s1 : vsock) h s2 res :
+  LB p s1 -> pim_ack cci s1 h = Some (s2, res) -> LB (p + ar_acked_bytes res) s2 /\ res_ok res.
+Proof.
+  intros (A & B & C & D). unfold pim_ack.
+  destruct (remove_up_to_ack _ _ _ _) as [segs1 res0] eqn:Er.
+  match goal with |- (match ?o with Some _ => _ | None => _ end) = _ -> _ => destruct o as [rtte1|] end; [|discriminate].
+  destruct (cc_on_ack cci _ _ _ _) as [cc3|]; [|discriminate].
+  destruct (recovery_on_ack cci _ _ _ _ _ _ _) as [[[rec1 segs2] cc4]|] eqn:Ero; [|discriminate].
+  intro H; injection H as <- <-.
+  destruct (remove_up_to_ack_inv _ _ _ _ _ _ A Er) as (A1 & Hb & Hb0 & Hoff & _ & Hs0).
+  pose proof (remove_up_to_ack_zero _ _ _ _ _ _ Er) as Hz.
+  destruct (recovery_on_ack_segs _ _ _ _ _ _ _ _ _ _ Ero A1) as (A2 & Hl2).
+  split; [|repeat split; assumption].
+  unfold LB. vsimpl. split; [exact A2|]. split; [apply VSock_Inv.delivered_ss_ok; exact B|].
+  split; [lia|]. rewrite Hl2. rewrite (seg_len_eq _ A1). rewrite (seg_len_eq _ A) in D. lia.
+Qed.
+
+Lemma pim_data_LB p (s2 : vsock) m res offset :
+  LB p s2 ->
+  match pim_data cci s2 m res offset with
+  | SOk s' r' => LB p s' /\ r' = res
+  | SErr s' _ => LB 0 s'
+  | SPanic => True
+  end.
+Proof.
+  intro H. unfold pim_data. destruct (offset <? 0); [split; [exact H|reflexivity]|]. cbv zeta.
+  destruct (rx_add_remove _ KData (m_payload m) offset) as [[rx1 ar] w].
+  match goal with |- match (match ar with UarPanic => _ | UarOk r => match add_err r with Some e => SErr ?x e | None => _ end end) with _ => _ end =>
+    assert (H4 : LB p x); [|revert H4; generalize x; intros s4 H4] end.
+  { destruct H as (A & B & C & D). unfold LB, add_wakes. vsimpl.
+    split; [exact A|]. split; [apply VSock_Inv.delivered_ss_ok; exact B|]. split; assumption. }
+  destruct ar as [r|]; [|exact I].
+  destruct (add_err r); [apply LB_zero with (p := p); exact H4|].
+  match goal with |- match (if _ then _ else SOk ?x _) with _ => _ end =>
+    assert (H5 : LB p x); [|revert H5; generalize x; intros s5 H5] end.
+  { destruct r; exact H4. }
+  destruct (_ || _); [|split; [exact H5|reflexivity]].
+  pose proof (send_ack_kp (force_immediate_ack s5)) as K.
+  destruct (send_ack (force_immediate_ack s5)) as [s6 b|s6 e|]; cbn [sbind skp] in *; [| |exact I].
+  - split; [|reflexivity]. eapply LB_kp; [exact H5|exact K].
+  - apply LB_zero with (p := p). eapply LB_kp; [exact H5|exact K].
+Qed.
+
+Lemma pim_fin_LB p (s2 : vsock) m res offset seen :
+  LB p s2 ->
+  match pim_fin s2 m res offset seen with
+  | SOk s' r' => LB p s' /\ r' = res
+  | SErr s' _ => LB 0 s'
+  | SPanic => True
+  end.
+Proof.
+  intro H. unfold pim_fin. cbv zeta. destruct (_ && _); [|split; [exact H|reflexivity]].
+  destruct (rx_add_remove _ KFin _ _) as [[rx1 ar] w].
+  destruct ar as [r|]; [|exact I].
+  destruct (add_err r); [apply LB_zero with (p := p); exact H|].
+  unfold mark_vsock_closed. split; [|reflexivity].
+  eapply LB_kp; [exact H|]. unfold kp, add_wakes, force_immediate_ack. vsimpl. cbn [ring upd]. auto.
+Qed.
+
+Lemma state_table_kp (s : vsock) h : kp s (tbl_state (state_table s h)).
+Proof.
+  unfold state_table, restart_remote_inactivity_timer, kp.
+  destruct (ch_type h); destruct (v_state s); cbn [tbl_state negb];
+    repeat (match goal with |- context [if ?c then _ else _] => destruct c end);
+    cbn [tbl_state]; vsimpl; repeat split.
+Qed.
+
+Lemma pim_LB p (s : vsock) m :
+  LB p s ->
+  match process_incoming_message cci s m with
+  | SOk s' res => LB (p + ar_acked_bytes res) s' /\ res_ok res
+  | SErr s' _ => LB 0 s'
+  | SPanic => True
+  end.
+Proof.
+  intro H. rewrite process_incoming_message_eq.
+  pose proof (state_table_kp s (m_hdr m)) as Ht.
+  destruct (state_table s (m_hdr m)) as [s1|s1 e|s1]; cbn [tbl_state] in Ht.
+  - split; [|unfold res_ok; cbn; lia]. replace (p + ar_acked_bytes on_ack_result_default) with p by (cbn; lia).
+    eapply LB_kp; eauto.
+  - apply LB_zero with (p := p). eapply LB_kp; eauto.
+  - assert (H1 : LB p s1) by (eapply LB_kp; eauto).
+    unfold pim_cont. destruct (pim_ack cci s1 (m_hdr m)) as [[s2 res]|] eqn:Ea; [|exact I].
+    destruct (pim_ack_LB _ _ _ _ _ H1 Ea) as [H2 Hr]. cbv zeta.
+    destruct (ch_type (m_hdr m)).
+    + pose proof (pim_data_LB _ s2 m res (seq_sub (ch_seq (m_hdr m)) (wadd16 (v_last_consumed s2) 1)) H2) as K.
+      destruct (pim_data _ _ _ _ _) as [s' r'|s' e|]; auto. destruct K as [K ->]. auto.
+    + pose proof (pim_fin_LB _ s2 m res (seq_sub (ch_seq (m_hdr m)) (wadd16 (v_last_consumed s2) 1))
+                    (is_remote_fin_or_later (v_state s)) H2) as K.
+      destruct (pim_fin _ _ _ _ _) as [s' r'|s' e|]; auto. destruct K as [K ->]. auto.
+    + auto.
+    + auto.
+    + auto.
+Qed.
+
+(* the accumulated result of the receive loop against the pending byte count *)
+Definition acc_ok (acc : on_ack_result) (p : Z) : Prop :=
+  ar_acked_bytes acc = p /\ 0 <= ar_acked_segments acc /\ (ar_acked_segments acc = 0 -> p = 0).
+
+Lemma acc_ok_update acc p r : acc_ok acc p -> res_ok r -> 0 <= p -> acc_ok (result_update acc r) (p + ar_acked_bytes r).
+Proof.
+  unfold acc_ok, res_ok, result_update. cbn [ar_acked_bytes ar_acked_segments].
+  intros (A1 & A2 & A3) (B1 & B2 & B3) Hp. repeat split; lia.
+Qed.
+
+Lemma recv_loop_LB : forall fuel (s : vsock) acc p,
+  LB p s -> acc_ok acc p ->
+  match recv_loop cci fuel s acc with
+  | SOk s' (acc', _) => exists p', LB p' s' /\ acc_ok acc' p'
+  | SErr s' _ => LB 0 s'
+  | SPanic => True
+  end.
+Proof.
+  assert (Hbase : forall (s : vsock) (acc : on_ack_result) p,
+    LB p s -> acc_ok acc p ->
+    match (if v_inbox_closed s
+           then sbind (maybe_send_fin (transition_to_fin_wait_1 s))
+                      (fun s2 _ => SOk (set_state s2 Closed) (acc, true))
+           else SOk (set_inbox_waker s true) (acc, false)) with
+    | SOk s' (acc', _) => exists p', LB p' s' /\ acc_ok acc' p'
+    | SErr s' _ => LB 0 s'
+    | SPanic => True
+    end).
+  { intros s acc p H Ha. destruct (v_inbox_closed s); [|exists p; split; [exact H|exact Ha]].
+    pose proof (maybe_send_fin_kp (transition_to_fin_wait_1 s)) as K.
+    assert (H1 : LB p (transition_to_fin_wait_1 s)) by (eapply LB_kp; [exact H|apply transition_kp]).
+    destruct (maybe_send_fin _) as [s2 b|s2 e|]; cbn [sbind skp] in *; [| |exact I].
+    - exists p. split; [|exact Ha]. eapply LB_kp; [exact H1|]. eapply kp_trans; [exact K|]. unfold kp. vsimpl. auto.
+    - apply LB_zero with (p := p). eapply LB_kp; eauto. }
+  induction fuel as [|m0 fuel IH]; intros s acc p H Ha; cbn [recv_loop];
+    destruct (v_inbox s) as [|m rest] eqn:Ei; try (apply (Hbase s acc p); assumption); try exact I.
+  pose proof (pim_LB p (set_inbox s rest) m H) as K.
+  destruct (process_incoming_message cci (set_inbox s rest) m) as [s1 r|s1 e|]; cbn [sbind]; [| exact K | exact I].
+  destruct K as [K Hr].
+  assert (Ha1 : acc_ok (result_update acc r) (p + ar_acked_bytes r)).
+  { apply acc_ok_update; try assumption. destruct H as (_ & _ & Hp & _). exact Hp. }
+  destruct (_ || _); [exists (p + ar_acked_bytes r); split; assumption|].
+  apply (IH s1 (result_update acc r) (p + ar_acked_bytes r)); assumption.
+Qed.
+
+Lemma pa_tail_LB p (s1 : vsock) r early : LB p s1 -> acc_ok r p -> sLB 0 (pa_tail s1 (r, early)).
+Proof.
+  intros H (Ha1 & Ha2 & Ha3). unfold pa_tail. cbv beta iota zeta.
+  match goal with |- context [acked_counts_as_sent ?x] =>
+    assert (F2 : LB p x); [|revert F2; generalize x; intros s2 F2] end.
+  { destruct (_ || _); [|exact H].
+    destruct (ss_segs _); [destruct (our_fin_if_unacked _)|];
+      unfold restart_remote_inactivity_timer; exact H. }
+  assert (K : forall s3 : vsock, LB 0 s3 ->
+     sLB 0 (match rv_phase (v_recovery s3) with
+            | Recovering rc =>
+                match calc_pipe (v_segs s3) (rc_high_rxt rc) (v_last_sent_seq_nr s3)
+                                (roundtrip_time (v_rtte s3)) (v_now s3) with
+                | None => SPanic
+                | Some (segs', pipe, recalc) =>
+                    SOk (set_recovering (set_segs s3 segs')
+                           {| rc_recovery_point := rc_recovery_point rc; rc_high_rxt := rc_high_rxt rc;
+                              rc_total_retx := rc_total_retx rc; rc_pipe := pipe; rc_recalc := recalc;
+                              rc_cwnd := rc_cwnd rc |}) tt
+                end
+            | _ => SOk s3 tt
+            end)).
+  { intros s3 H3. destruct (rv_phase _); try exact H3.
+    destruct (calc_pipe _ _ _ _ _) as [[[segs' pipe] recalc]|] eqn:Ec; [|exact I].
+    cbn [sLB]. destruct H3 as (A & B & C & D). unfold LB, set_recovering. vsimpl.
+    split; [eapply calc_pipe_inv; eauto|]. split; [exact B|]. split; [exact C|].
+    rewrite (calc_pipe_len _ _ _ _ _ _ _ _ Ec). exact D. }
+  destruct (Z.ltb_spec 0 (ar_acked_segments r)) as [Hpos|Hz].
+  - assert (Hx : LB p (acked_counts_as_sent s2))
+      by (unfold acked_counts_as_sent; destruct (seq_gt _ _); exact F2).
+    revert Hx. generalize (acked_counts_as_sent s2). intros s2' (A & B & C & D).
+    pose proof (seg_len_nonneg _ A) as Hn.
+    unfold truncate_front. cbv zeta. rewrite Ha1.
+    replace (Z.min p (Z.of_nat (length (ring (v_tx s2'))))) with p by lia.
+    rewrite Z.eqb_refl. unfold wake_writer. cbn [sbind]. apply K.
+    unfold LB, add_wakes. vsimpl. cbn [ring upd]. split; [exact A|]. split; [exact B|]. split; [lia|].
+    rewrite skipn_length. lia.
+  - cbn [sbind]. apply K. apply LB_zero with (p := p). exact F2.
+Qed.
+
+Lemma process_all_LB (s : vsock) : LB 0 s -> sLB 0 (process_all_incoming_messages cci s).
+Proof.
+  intro H. rewrite process_all_eq.
+  pose proof (recv_loop_LB (v_inbox s ++ [{| m_hdr := outgoing_header s; m_payload := [] |}]) s
+                on_ack_result_default 0 H) as K.
+  assert (Ha : acc_ok on_ack_result_default 0) by (unfold acc_ok; cbn; repeat split; lia).
+  specialize (K Ha).
+  destruct (recv_loop cci _ s on_ack_result_default) as [s1 [r early]|s1 e|]; cbn [sbind]; [|exact K|exact I].
+  destruct K as (p' & K1 & K2). eapply pa_tail_LB; eauto.
+Qed.
+
+(* ---- poll_body, poll ---- *)
+Definition bLB (r : body_res) : Prop :=
+  match r with BrReturn s' _ | BrRestart s' => LB 0 s' | BrPanic => True end.
+
+Lemma bail_LB {A} (m : step A) k :
+  sLB 0 m -> (forall s1 a, LB 0 s1 -> bLB (k s1 a)) -> bLB (bail m k).
+Proof.
+  intros Hm Hk. unfold bail, die. destruct m as [s1 a|s1 e|]; cbn [sLB] in Hm; [| |exact I].
+  - destruct (v_restart s1); [exact Hm|apply Hk; exact Hm].
+  - cbn [bLB]. eapply LB_kp; [exact Hm|apply jbd_kp].
+Qed.
+
+Lemma pend_LB {A} (m : step A) k :
+  sLB 0 m -> (forall s1 a, LB 0 s1 -> bLB (k s1 a)) -> bLB (pend m k).
+Proof.
+  intros Hm Hk. unfold pend. apply bail_LB; [exact Hm|].
+  intros s1 a H1. destruct (v_transport_pending s1); [exact H1|].
+  destruct (v_restart s1); [exact H1|apply Hk; exact H1].
+Qed.
+
+Theorem poll_body_LB (s0 : vsock) : LB 0 s0 -> bLB (poll_body cci s0).
+Proof.
+  intro H0. rewrite poll_body_parts. unfold body_front, body_head.
+  assert (Hs : LB 0 (body_start s0)) by exact H0.
+  apply pend_LB; [apply (skp_sLB 0 (body_start s0)); [exact Hs|apply maybe_send_syn_ack_kp]|]. intros s1 _ H1.
+  apply pend_LB.
+  { destruct (immediate_ack_to_transmit s1); [apply (skp_sLB 0 s1); [exact H1|apply send_ack_kp]|exact H1]. }
+  intros s2 _ H2.
+  apply pend_LB; [apply process_all_LB; exact H2|]. intros s3 _ H3.
+  unfold body_mid. destruct (rx_flush (v_rx s3)) as [[rx1 fr] w]. destruct fr; cbv beta iota zeta; [|exact I].
+  assert (H4 : LB 0 (add_wakes (set_rx s3 rx1) (rx_wakes w))) by exact H3.
+  revert H4. generalize (add_wakes (set_rx s3 rx1) (rx_wakes w)). intros s4 H4.
+  destruct (timer_expired _ _).
+  { unfold die. cbn [bLB]. eapply LB_kp; [exact H4|apply jbd_kp]. }
+  apply bail_LB; [apply split_LB; exact H4|]. intros s5 _ H5.
+  apply pend_LB; [apply send_tx_queue_LB; exact H5|]. intros s6 _ H6.
+  unfold body_back.
+  assert (H7 : LB 0 (if should_close_on_own_initiative s6 then transition_to_fin_wait_1 s6 else s6)).
+  { destruct (should_close_on_own_initiative s6); [eapply LB_kp; [exact H6|apply transition_kp]|exact H6]. }
+  revert H7. generalize (if should_close_on_own_initiative s6 then transition_to_fin_wait_1 s6 else s6).
+  intros s7 H7.
+  apply pend_LB; [apply (skp_sLB 0 s7); [exact H7|apply maybe_send_fin_kp]|]. intros s8 _ H8.
+  apply pend_LB; [apply (skp_sLB 0 s8); [exact H8|apply maybe_send_ack_kp]|]. intros s9 _ H9.
+  unfold body_finish. destruct (state_is_closed _ _).
+  { cbn [bLB]. eapply LB_kp; [exact H9|apply jbd_kp]. }
+  match goal with |- context [next_timer_to_poll ?x] => assert (H10 : LB 0 x); [|revert H10; generalize x; intros s10 H10] end.
+  { destruct (is_local_fin_or_later (v_state s9)); exact H9. }
+  unfold next_timer_to_poll, arm_in, add_wakes. destruct (v_transport_pending s10).
+  - destruct (v_t_inactivity s10); cbn [bLB]; [|exact H10]. destruct (_ <=? _); exact H10.
+  - match goal with |- bLB (BrReturn match ?t with _ => _ end _) => destruct t end; cbn [bLB];
+      [destruct (_ <=? _)|]; exact H10.
+Qed.
+
+Theorem poll_LB (s : vsock) : LB 0 s -> LB 0 (fst (poll cci s)).
+Proof.
+  intro H. unfold poll.
+  apply (poll_loop_ind (LB 0) (fun s' _ => LB 0 s')).
+  - auto.
+  - intros t Ht. pose proof (poll_body_LB t Ht) as B. destruct (poll_body cci t); exact B.
+  - exact H.
+Qed.
+
+(* ---- application events, construction ---- *)
+Lemma poll_write_ring t buf t' r w : poll_write t buf = (t', r, w) -> exists l, ring t' = ring t ++ l.
+Proof.
+  unfold poll_write.
+  destruct (_ <? _); [intro H; injection H as <- _ _; exists []; cbn [ring upd]; rewrite app_nil_r; reflexivity|].
+  destruct (t_vsock_closed t); [intro H; injection H as <- _ _; exists []; rewrite app_nil_r; reflexivity|].
+  destruct (writer_shutdown t); [intro H; injection H as <- _ _; exists []; rewrite app_nil_r; reflexivity|].
+  destruct (writer_dropped t); [intro H; injection H as <- _ _; exists []; rewrite app_nil_r; reflexivity|].
+  cbv zeta. destruct (_ =? 0); intro H; injection H as <- _ _; cbn [ring upd];
+    [exists []; rewrite app_nil_r; reflexivity|eexists; reflexivity].
+Qed.
+
+Lemma vstep_LB (s : vsock) o : LB 0 s -> LB 0 (fst (fst (fst (vstep cci s o)))).
+Proof.
+  intro H. destruct o; cbn [vstep].
+  - exact H.
+  - exact H.
+  - pose proof (poll_LB (VSockRec.set_sends s script) H) as K.
+    destruct (poll cci (VSockRec.set_sends s script)) as [s' r]. exact K.
+  - destruct (v_inbox_closed s); exact H.
+  - exact H.
+  - destruct (writer_dropped (v_tx s)); [exact H|].
+    destruct (poll_write (v_tx s) buf) as [[tx1 r] w] eqn:E. cbn [fst].
+    destruct (poll_write_ring _ _ _ _ _ E) as (l & Hl).
+    destruct H as (A & B & C & D). unfold LB. vsimpl. rewrite Hl, app_length.
+    split; [exact A|]. split; [exact B|]. split; lia.
+  - destruct (writer_dropped (v_tx s)); [exact H|].
+    destruct (poll_flush (v_tx s)) as [[tx1 r] w] eqn:E. cbn [fst].
+    destruct (proj1 (VSock_Inv.tx_flag_ops (v_tx s)) _ _ _ E) as [F1 _].
+    eapply LB_kp; [exact H|]. unfold kp. vsimpl. auto.
+  - destruct (writer_dropped (v_tx s)); [exact H|].
+    destruct (poll_shutdown (v_tx s)) as [[tx1 r] w] eqn:E. cbn [fst].
+    destruct (proj1 (proj2 (VSock_Inv.tx_flag_ops (v_tx s))) _ _ _ E) as [F1 _].
+    eapply LB_kp; [exact H|]. unfold kp. vsimpl. auto.
+  - destruct (reader_dropped (v_rx s)); [exact H|].
+    destruct (rx_read (v_rx s) n) as [[rx1 r] w]. exact H.
+  - destruct (reader_dropped (v_rx s)); [exact H|].
+    destruct (rx_drop_reader (v_rx s)) as [rx1 w]. exact H.
+  - destruct (drop_writer (v_tx s)) as [tx1 w] eqn:E. cbn [fst].
+    destruct (proj2 (proj2 (VSock_Inv.tx_flag_ops (v_tx s))) _ _ E) as [F1 _].
+    eapply LB_kp; [exact H|]. unfold kp. vsimpl. auto.
+Qed.
+
+Lemma vsock_new_LB mk c (s0 : vsock) :
+  C10_Pred.vconfig_ok c = true -> vsock_new cci mk c = Some s0 -> LB 0 s0.
+Proof.
+  intros Hc Hn. destruct (VSock_Inv.vsock_new_inv cci mk c Hc) as (s0' & E & Hinv).
+  rewrite Hn in E. injection E as <-.
+  destruct (VSock_Inv.inv_parts _ _ _ _ Hinv) as (_ & A & _ & _ & _ & B & _).
+  destruct (VSock_Inv.bounded_buffering _ _ _ _ Hinv) as (_ & _ & _ & _ & _ & D).
+  unfold LB. split; [exact A|]. split; [exact B|]. split; lia.
+Qed.
+
 End WithCC.
